@@ -28,7 +28,7 @@ def tla_set(xs) -> str:
 def run_model(wd: Path, name: str, cfgs: str, *, K: int = 0, faults=(), cancels=(), cuts=(), pacing: str = "canon",
               ticks=(1000,), invariants=(), properties=(), fair: bool = False, record: bool = False, maxhist: int = 0,
               constraint: str | None = None, defs: str = "", workers: int | str = 16, simulate: dict | None = None,
-              timeout: int = 3600, coverage: bool = False, seed: int = 0, heap: str = "8g") -> TlcResult:
+              timeout: int = 3600, coverage: bool = False, seed: int = 0, heap: str = "6g") -> TlcResult:
     mod = f"MCi_{name}"
     (wd / f"{mod}.tla").write_text(
         f"---- MODULE {mod} ----\nEXTENDS MC_Cfdp\nTheCfgs == {cfgs}\n{defs}\n"
@@ -101,7 +101,7 @@ def cfgs_tla(overs: list[dict]) -> str:
 
 # ---- the adversarial single-handler model spec/Solo.tla ----
 def run_solo(wd: Path, name: str, side: str, cfgs: str, cats, depth: int, props, allowed=(), pre=(), emit: bool = True,
-             workers: int | str = 16, timeout: int = 3600, heap: str = "8g") -> TlcResult:
+             workers: int | str = 16, timeout: int = 3600, heap: str = "6g") -> TlcResult:
     mod = f"MCs_{name}"
     (wd / f"{mod}.tla").write_text(
         f"---- MODULE {mod} ----\nEXTENDS MC_Solo\nTheCfgs == {cfgs}\nTheProps == <<{', '.join(chr(34) + p + chr(34) for p in props)}>>\n"
